@@ -263,4 +263,22 @@ end bfs
 theorem vperm {h h' : Net} (hw : h.WF) (hr : Reorder h h') : VPerm (view h) (view h') := view_reorder hw.2.1 hr
 theorem vwf {h : Net} (hw : h.WF) : VWF (view h) := view_wf hw.2.1
 
+/-! ### model adequacy (moved here from Props/C09.lean: not invariance statements) -/
+
+/-- the fuel `len(H.nodes)` given to the BFS suffices: the result is closed under taking neighbours, and it is
+    exactly the set of nodes reachable from the source -/
+theorem comp_fuel_suffices (h : Net) (n : PyId) :
+    (∀ m x, m ∈ comp (view h) n → x ∈ (view h).nodes → x ∈ neighbors (view h) m → x ∈ comp (view h) n) ∧
+    (∀ m, m ∈ comp (view h) n ↔ Reach (view h) n m) :=
+  ⟨fun _ _ hm hx hmx => comp_closed hm hx hmx, fun _ => mem_comp⟩
+
+/-- the loop of `connected_components` lists BFS sets of nodes and covers every node -/
+theorem components_cover (h : Net) :
+    (∀ c ∈ components (view h), ∃ a ∈ (view h).nodes, c = comp (view h) a) ∧
+    (∀ a ∈ (view h).nodes, ∃ c ∈ components (view h), a ∈ c) := by
+  refine ⟨compLoop_sub _ _, fun a ha => ?_⟩
+  rcases compLoop_cover (fun a ha => self_mem_comp ha) (view h).nodes [] (fun _ h => h) a ha with h0 | h1
+  · cases h0
+  · exact h1
+
 end Xgi.C09
